@@ -181,17 +181,42 @@ static void do_parse(char fc, const unsigned char *bytes, size_t n)
   } else if (rc != -1 || !hwloc_bitmap_iszero(set)) {
     stable = 0;
   }
-  /* the accepted value must be a function of the string: same parse into a
-   * bitmap holding another pattern */
+  /* the accepted value must be a function of the string alone: the same parse
+   * into REUSED destinations with other previous contents (another word
+   * pattern, empty, full, {4-7,128-}, a 20-word finite set, an infinite set with
+   * 20 words, the result itself) must give the same bitmap and return value */
   {
-    hwloc_bitmap_t other;
-    int rc3, det;
-    dirty_pattern = ~DIRTY;
-    other = dirty_bitmap(n / 2 + 4);
-    dirty_pattern = DIRTY;
-    rc3 = ssc[f](other, s);
-    det = (rc3 == rc && same_set(other, set));
-    hwloc_bitmap_free(other);
+    int det = 1, k;
+    for (k = 0; k < 7; k++) {
+      hwloc_bitmap_t other;
+      unsigned long m[20];
+      int rc3, i;
+      switch (k) {
+      case 0:
+        dirty_pattern = ~DIRTY;
+        other = dirty_bitmap(n / 2 + 4);
+        dirty_pattern = DIRTY;
+        break;
+      case 1: other = hwloc_bitmap_alloc(); break;
+      case 2: other = hwloc_bitmap_alloc_full(); break;
+      case 3:
+        other = hwloc_bitmap_alloc();
+        hwloc_bitmap_set_range(other, 4, 7);
+        hwloc_bitmap_set_range(other, 128, -1);
+        break;
+      case 4:
+      case 5:
+        for (i = 0; i < 20; i++) m[i] = 0x0123456789abcdefUL * (i + 1) | 1;
+        other = hwloc_bitmap_alloc();
+        hwloc_bitmap_from_ulongs(other, 20, m);
+        if (k == 5) other->infinite = 1;
+        break;
+      default: other = hwloc_bitmap_dup(set); break;
+      }
+      rc3 = ssc[f](other, s);
+      if (rc3 != rc || !same_set(other, set)) det = 0;
+      hwloc_bitmap_free(other);
+    }
     printf(" %d %d\n", stable, det);
   }
   hwloc_bitmap_free(set);
